@@ -33,14 +33,14 @@ section
 variable (p : Program) (f0 : Frame) (rest : List Frame) (V : Array Value) (P : List KConst)
 
 /-- two statements in sequence: the first one's slot is freed, the second starts from the state the first left -/
-theorem Correct2_seq (G : String → Prop) (c c1 c1f c' : CState) (sl1 slot : JSlot) (sc : Scope) (rs : List Scope) (pool : List KConst)
+theorem Correct2_seq (G : String → Prop) (dr1 dr : Bool) (c c1 c1f c' : CState) (sl1 slot : JSlot) (sc : Scope) (rs : List Scope) (pool : List KConst)
     (ps : List (List KConst)) (env env1 env' : Env) (s s1 s' : SS) (v1 v : Value)
-    (h1 : Correct2 p f0 rest V P G c c1 sl1 sc rs pool ps env env1 s s1 v1)
+    (h1 : Correct2 p f0 rest V P G dr1 c c1 sl1 sc rs pool ps env env1 s s1 v1)
     (hf : freeslot c1 sl1 = some c1f)
     (h2 : ∀ sc1 pool1, c1f.scopes = sc1 :: rs → c1f.pools = pool1 :: ps → sc1.top = sc.top → c1f.lim = c.lim →
-          EnvS G c1f.scopes env1 s1.boxes.size sc1.ra → Correct2 p f0 rest V P G c1f c' slot sc1 rs pool1 ps env1 env' s1 s' v) :
-    Correct2 p f0 rest V P G c c' slot sc rs pool ps env env' s s' v := by
-  obtain ⟨ra1, ns1, more1, seg1, segm1, hc1, pv1, mono1, max1, sok1, bx1, es1, vm1⟩ := h1
+          EnvS G c1f.scopes env1 s1.boxes.size sc1.ra → Correct2 p f0 rest V P G dr c1f c' slot sc1 rs pool1 ps env1 env' s1 s' v) :
+    Correct2 p f0 rest V P G dr c c' slot sc rs pool ps env env' s s' v := by
+  obtain ⟨ra1, ns1, more1, seg1, segm1, hc1, pv1, mono1, max1, sok1, bx1, es1, nf1, vm1⟩ := h1
   have hs1 : c1.scopes = { sc with ra := ra1, syms := sc.syms ++ ns1 } :: rs := by rw [hc1]
   obtain ⟨raf, hcf, hmaxf, hkeep⟩ := freeslot_ok c1 c1f sl1 sc { sc with ra := ra1, syms := sc.syms ++ ns1 } rs hs1 sok1 hf
   have hsf : c1f.scopes = { sc with ra := raf, syms := sc.syms ++ ns1 } :: rs := by rw [hcf]
@@ -48,13 +48,16 @@ theorem Correct2_seq (G : String → Prop) (c c1 c1f c' : CState) (sl1 slot : JS
   have hlkf : ∀ x, lk c1f.scopes x = lk c1.scopes x := by intro x; rw [hsf, hs1]; rfl
   have esf : EnvS G c1f.scopes env1 s1.boxes.size raf :=
     es1.of_lk hlkf (Nat.le_refl _) (fun x slot u l r hx hk hr => hkeep r hr (Or.inr ⟨x, slot, u, l, hx, hk⟩))
-  obtain ⟨ra', ns2, more2, seg2, segm2, hc', pv2, mono2, max2, sok2, bx2, es2, vm2⟩ := h2 _ _ hsf hpf rfl (by rw [hcf, hc1]) esf
+  obtain ⟨ra', ns2, more2, seg2, segm2, hc', pv2, mono2, max2, sok2, bx2, es2, nf2, vm2⟩ := h2 _ _ hsf hpf rfl (by rw [hcf, hc1]) esf
   have hvf : c1f.vals = c1.vals := by rw [hcf]
   have hmaxf' : raf.max = ra1.max := hmaxf
   have max2' : raf.max ≤ ra'.max := max2
   have mono2' : ∀ r, raf.alloc r = true → ra'.alloc r = true := mono2
   have keep0 : ∀ r, sc.ra.alloc r = true → raf.alloc r = true := fun r hr => hkeep r (mono1 r hr) (Or.inl hr)
-  refine ⟨ra', ns1 ++ ns2, more1 ++ more2, seg1 ++ seg2, segm1 ++ segm2, ?_, ?_, ?_, ?_, ?_, PrefA.trans bx1 bx2, es2, ?_⟩
+  have nfA : ∀ d, sc.ra.alloc d = true → NoName c.scopes d → NoName c'.scopes d := fun d hd hno =>
+    nf2.1 d (keep0 d hd) ((nf1.1 d hd hno).of_lk hlkf)
+  refine ⟨ra', ns1 ++ ns2, more1 ++ more2, seg1 ++ seg2, segm1 ++ segm2, ?_, ?_, ?_, ?_, ?_, PrefA.trans bx1 bx2, es2,
+    ⟨nfA, fun r hnm hk hr hno => nf2.2 r hnm hk (keep0 r hr) ((nf1.1 r hr hno).of_lk hlkf)⟩, ?_⟩
   · rw [hc', hcf, hc1]
     simp [List.append_assoc]
   · rw [hvf] at pv2; exact PrefA.trans pv1 pv2
@@ -91,22 +94,23 @@ theorem Correct2_seq (G : String → Prop) (c c1 c1f c' : CState) (sl1 slot : JS
 theorem atom_nil2 (G : String → Prop) (c : CState) (sc : Scope) (rs : List Scope)
     (pool : List KConst) (ps : List (List KConst)) (hs : c.scopes = sc :: rs) (hp : c.pools = pool :: ps) (env : Env) (s : SS)
     (hE : EnvS G c.scopes env s.boxes.size sc.ra) :
-    Correct2 p f0 rest V P G c c (cslot .nil) sc rs pool ps env env s s .nil := by
-  refine ⟨sc.ra, [], [], [], [], ?_, PrefA.refl _, fun _ h => h, Nat.le_refl _, Or.inl ⟨rfl, .nil, rfl, trivial⟩, PrefA.refl _, hE, ?_⟩
+    Correct2 p f0 rest V P G false c c (cslot .nil) sc rs pool ps env env s s .nil := by
+  refine ⟨sc.ra, [], [], [], [], ?_, PrefA.refl _, fun _ h => h, Nat.le_refl _, Or.inl ⟨rfl, .nil, rfl, trivial⟩, PrefA.refl _, hE,
+    NameFrame.of_lk (fun _ => rfl) rfl, ?_⟩
   · simp [hs, hp]
     cases c; simp_all
   · intro k hkw hka hD _ _ _ _
-    refine ⟨k.regs, ?_, rfl, fun _ _ => rfl, rfl, hD⟩
+    refine ⟨k.regs, ?_, rfl, fun _ _ => rfl, fun _ => rfl, hD⟩
     rw [cfg_eta k _ hkw hka]; exact Reach.refl _ _
 
 /-- `janetc_do` body: all statements but the last dropped and freed -/
-theorem doBody_correct (G : String → Prop) (fuel : Nat) (IH : CorrectAt p f0 rest V P G fuel) :
-    ∀ (b : List Expr), (∀ e, e ∈ b → TS G e) →
+theorem doBody_correct (G : String → Prop) (T : Expr → Prop) (w : Bool) (fuel : Nat) (IH : CorrectAt p f0 rest V P G T w fuel) :
+    ∀ (b : List Expr), (∀ e, e ∈ b → T e) →
     ∀ (opts : Fopts) (c c' : CState) (slot : JSlot) (sc : Scope) (rs : List Scope) (pool : List KConst) (ps : List (List KConst))
       (n : Nat) (cur : Pos) (env env' : Env) (s s' : SS) (v : Value),
       opts.tail = false → opts.hint = none → c.scopes = sc :: rs → c.pools = pool :: ps → c.lim ≤ 240 → sc.top = false →
       doBody (cValue fuel) opts b c = some (slot, c') → evalSeq n cur env b s = .ok (v, env') s' → EnvS G c.scopes env s.boxes.size sc.ra →
-      Correct2 p f0 rest V P G c c' slot sc rs pool ps env env' s s' v := by
+      Correct2 p f0 rest V P G (opts.drop && w) c c' slot sc rs pool ps env env' s s' v := by
   intro b
   induction b with
   | nil =>
@@ -115,7 +119,7 @@ theorem doBody_correct (G : String → Prop) (fuel : Nat) (IH : CorrectAt p f0 r
     obtain ⟨h1, h2⟩ := hc
     obtain ⟨e1, e2, e3⟩ := evalSeq_nil_inv n cur env env' s s' v hsem
     subst h1 h2 e1 e2 e3
-    exact atom_nil2 p f0 rest V P G _ sc rs pool ps hs hp _ _ hE
+    exact Correct2.weaken p f0 rest V P _ (atom_nil2 p f0 rest V P G _ sc rs pool ps hs hp _ _ hE)
   | cons x t ih =>
     intro hT opts c c' slot sc rs pool ps n cur env env' s s' v ht hh hs hp hl htop hc hsem hE
     cases t with
@@ -128,7 +132,7 @@ theorem doBody_correct (G : String → Prop) (fuel : Nat) (IH : CorrectAt p f0 r
       obtain ⟨sl1, c1, hx, c1f, hf, hrest⟩ := hc
       obtain ⟨n2, v1, env1, s1, hn, he1, he2⟩ := evalSeq_cons_inv n cur env env' x y r s s' v hsem
       have h1 := IH x { drop := true } c c1 sl1 sc rs pool ps n2 cur env env1 s s1 v1 rfl rfl hs hp hl htop (hT x (by simp)) hx he1 hE
-      refine Correct2_seq p f0 rest V P G c c1 c1f c' sl1 slot sc rs pool ps env env1 env' s s1 s' v1 v h1 hf ?_
+      refine Correct2_seq p f0 rest V P G (true && w) (opts.drop && w) c c1 c1f c' sl1 slot sc rs pool ps env env1 env' s s1 s' v1 v h1 hf ?_
       intro sc1 pool1 hs1 hp1 htop1 hl1 hE1
       exact ih (fun e he => hT e (by simp [he])) opts c1f c' slot sc1 rs pool1 ps n2 cur env1 env' s1 s' v ht hh hs1 hp1
         (by rw [hl1]; exact hl) (by rw [htop1]; exact htop) hrest he2 hE1
@@ -199,13 +203,13 @@ theorem popScopeKeep_block (c2 c3 : CState) (r : JSlot) (old sc : Scope) (rs : L
     exact ⟨raX, h.symm, hmax, hmono, fun i hi => by simp at hi⟩
 
 /-- `janetc_do`: block scope around the body -/
-theorem do_core (G : String → Prop) (fuel : Nat) (IH : CorrectAt p f0 rest V P G fuel) (body : List Expr) (hT : ∀ e, e ∈ body → TS G e)
+theorem do_core (G : String → Prop) (T : Expr → Prop) (w : Bool) (fuel : Nat) (IH : CorrectAt p f0 rest V P G T w fuel) (body : List Expr) (hT : ∀ e, e ∈ body → T e)
     (opts : Fopts) (c c' : CState) (slot : JSlot) (sc : Scope) (rs : List Scope) (pool : List KConst) (ps : List (List KConst))
     (n : Nat) (cur : Pos) (env envb : Env) (s s' : SS) (v : Value)
     (ht : opts.tail = false) (hh : opts.hint = none) (hs : c.scopes = sc :: rs) (hp : c.pools = pool :: ps) (hl : c.lim ≤ 240)
     (hc : cDo (cValue fuel) opts body c = some (slot, c')) (hsem : evalSeq n cur env body s = .ok (v, envb) s')
     (hE : EnvS G c.scopes env s.boxes.size sc.ra) :
-    Correct2 p f0 rest V P G c c' slot sc rs pool ps env env s s' v := by
+    Correct2 p f0 rest V P G (opts.drop && w) c c' slot sc rs pool ps env env s s' v := by
   simp only [cDo, Option.bind_eq_bind, Option.bind_eq_some_iff, Prod.exists, Option.pure_def, Option.some.injEq, Prod.mk.injEq] at hc
   obtain ⟨r, c2, hbody, c3, hpop, hslot, hc3⟩ := hc
   subst hslot hc3
@@ -217,8 +221,8 @@ theorem do_core (G : String → Prop) (fuel : Nat) (IH : CorrectAt p f0 rest V P
     intro x; rw [hs]; exact lk_push nw (sc :: rs) rfl rfl rfl x
   have hE1 : EnvS G ({ c with scopes := nw :: sc :: rs } : CState).scopes env s.boxes.size nw.ra :=
     hE.of_lk hlk1 (Nat.le_refl _) (fun _ _ _ _ _ _ _ h => h)
-  obtain ⟨ra2, ns2, more2, seg2, segm2, hc2, pv2, mono2, max2, sok2, bx2, es2, vm2⟩ :=
-    doBody_correct p f0 rest V P G fuel IH body hT opts { c with scopes := nw :: sc :: rs } c2 r nw (sc :: rs) pool ps n cur env envb s s' v
+  obtain ⟨ra2, ns2, more2, seg2, segm2, hc2, pv2, mono2, max2, sok2, bx2, es2, nf2, vm2⟩ :=
+    doBody_correct p f0 rest V P G T w fuel IH body hT opts { c with scopes := nw :: sc :: rs } c2 r nw (sc :: rs) pool ps n cur env envb s s' v
       ht hh rfl hp hl rfl hbody hsem hE1
   have hs2 : c2.scopes = { nw with ra := ra2, syms := nw.syms ++ ns2 } :: sc :: rs := by rw [hc2]
   obtain ⟨raX, hc3, hmaxX, hmonoX, hkeepX⟩ :=
@@ -237,7 +241,7 @@ theorem do_core (G : String → Prop) (fuel : Nat) (IH : CorrectAt p f0 rest V P
   have max2' : sc.ra.max ≤ ra2.max := max2
   have hmaxX' : raX.max = (if sc.ra.max < ra2.max then ra2.max else sc.ra.max) := hmaxX
   have mono2' : ∀ j, sc.ra.alloc j = true → ra2.alloc j = true := mono2
-  refine ⟨raX, (nw.syms ++ ns2).map (fun q => { q with visible := false }), more2, seg2, segm2, ?_, ?_, hmonoX, ?_, ?_, bx2, ?_, ?_⟩
+  refine ⟨raX, (nw.syms ++ ns2).map (fun q => { q with visible := false }), more2, seg2, segm2, ?_, ?_, hmonoX, ?_, ?_, bx2, ?_, ?_, ?_⟩
   · rw [hc3, hc2]
   · rw [hc3]; exact pv2
   · rw [hmaxX']; split <;> omega
@@ -256,6 +260,8 @@ theorem do_core (G : String → Prop) (fuel : Nat) (IH : CorrectAt p f0 rest V P
       rw [a4'] at hal
       exact Bool.noConfusion hal
   · exact hE.of_lk hlk3 bx2.1 (fun _ _ _ _ r _ _ h => hmonoX r h)
+  · refine ⟨fun d _ hno => hno.of_lk hlk3, fun r0 hnm hk hr hno => ?_⟩
+    exact nf2.2 r0 hnm hk hr (hno.of_lk hlk1)
   · intro k hkw hka hD hcode hpre hV hsz
     have hv3 : c3.vals = c2.vals := by rw [hc3]
     rw [hv3] at hV
